@@ -78,7 +78,9 @@ type job[T any] struct {
 	status atomic.Uint32
 	wg     sync.WaitGroup
 	queue  IBaseQueue
-	ackId  string
+	// written by the dispatcher once the job is Processing, read by Close() - which a client may
+	// call on its handle at that very moment
+	ackId atomic.Pointer[string]
 }
 
 // jobView represents a view of a job's state for serialization.
@@ -134,7 +136,15 @@ func newJob[T any](data T, configs jobConfigs) *job[T] {
 }
 
 func (j *job[T]) setAckId(id string) {
-	j.ackId = id
+	j.ackId.Store(&id)
+}
+
+func (j *job[T]) getAckId() string {
+	if id := j.ackId.Load(); id != nil {
+		return *id
+	}
+
+	return ""
 }
 
 func (j *job[T]) setInternalQueue(q IBaseQueue) {
@@ -292,7 +302,9 @@ func (j *job[T]) Close() error {
 }
 
 func (j *job[T]) ack() error {
-	if j.ackId == "" || j.IsClosed() {
+	ackId := j.getAckId()
+
+	if ackId == "" || j.IsClosed() {
 		return nil
 	}
 
@@ -300,8 +312,8 @@ func (j *job[T]) ack() error {
 		return nil
 	}
 
-	if ok := j.queue.(IAcknowledgeable).Acknowledge(j.ackId); !ok {
-		return fmt.Errorf("%w: jobId=%s, ackId=%s", ErrAcknowledgeJob, j.id, j.ackId)
+	if ok := j.queue.(IAcknowledgeable).Acknowledge(ackId); !ok {
+		return fmt.Errorf("%w: jobId=%s, ackId=%s", ErrAcknowledgeJob, j.id, ackId)
 	}
 
 	return nil
